@@ -10,6 +10,7 @@ TERM  = ["v", name] | ["attr", TERM, field] | ["idx", TERM, i] | ["call", TERM, 
 COND  = ["cmp", TERM, op, TERM] | ["in", TERM item, TERM container] | ["and", COND...] | ["or", COND...]
         | ["not", COND] | ["fp", name, [TERM...]] | ["cp", name, [TERM...]] | ["forall", TERM, COND]
         | ["nest", var name, [COND...]] | ["ht", TERM, class name]
+        | ["shared", shared id, COND]            (ONE condition object per id and pool, reused by every query)
         | ["sub", var name, [COND...], sub id]   (like nest, but ONE object per sub id and pool, reused by every query)
 RULE  = {"add": [class, {field: TERM}], "children": [{"kind": refinement|alternative|next, "conds": [COND...],
          "node": RULE}]}
@@ -48,6 +49,7 @@ class Pool:
         self.queries: Dict[str, Any] = {}
         self.streams: Dict[str, Any] = {}      # var name -> OneShot / LoggingCollection (pull logs)
         self.built_conds: Dict[str, list] = {}
+        self.shared_conds: Dict[str, Any] = {}  # shared id -> the one condition OBJECT used by several queries
         self.subqueries: Dict[str, Any] = {}   # sub id -> the one sub-query OBJECT shared by the queries using it
         self.kind_override = domain_kinds       # twin pools use plain list copies
         self.stream_faults = stream_faults or {}
@@ -172,6 +174,11 @@ class Pool:
             if c[3] not in self.subqueries:
                 self.subqueries[c[3]] = an(entity(self.vars[c[1]], *[self.cond(x) for x in c[2]]))
             return self.subqueries[c[3]]
+        if k == "shared":
+            # ["shared", id, COND]: ONE condition object per id and pool, reused by every query that names the id
+            if c[1] not in self.shared_conds:
+                self.shared_conds[c[1]] = self.cond(c[2])
+            return self.shared_conds[c[1]]
         raise BuildError(f"cond {k}")
 
     # ------------------------------------------------------------------ queries
